@@ -9,9 +9,15 @@ Definition val (r : N) (l : list N) : N := fold_left (fun a d => a * r + d) l 0.
 Fixpoint digits_fuel (fuel : nat) (r n : N) (acc : list N) : list N :=
   match fuel with
   | O => acc
-  | S f => if n =? 0 then acc else digits_fuel f r (n / r) (n mod r :: acc)
+  | S f => if n =? 0 then acc else let '(q, m) := N.div_eucl n r in digits_fuel f r q (m :: acc)   (* one division for quotient and remainder *)
   end.
 Definition digits (r n : N) : list N := digits_fuel (N.to_nat (N.size n)) r n [].
+
+Lemma digits_fuel_S f r n acc :
+  digits_fuel (S f) r n acc = if n =? 0 then acc else digits_fuel f r (n / r) (n mod r :: acc).
+Proof. cbn [digits_fuel]. unfold N.div, N.modulo. destruct (N.div_eucl n r). reflexivity. Qed.
+Lemma digits_fuel_O r n acc : digits_fuel O r n acc = acc.
+Proof. reflexivity. Qed.
 
 Fixpoint lz (l : list N) : nat := match l with 0 :: l' => S (lz l') | _ => 0%nat end.
 Definition strip (l : list N) : list N := skipn (lz l) l.
@@ -52,7 +58,7 @@ Qed.
 Lemma digits_fuel_val r : 2 <= r -> forall fuel n acc, n < 2 ^ N.of_nat fuel ->
   val r (digits_fuel fuel r n acc) = n * r ^ N.of_nat (length acc) + val r acc.
 Proof.
-  intros Hr. induction fuel as [|f IH]; intros n acc Hn; cbn [digits_fuel].
+  intros Hr. induction fuel as [|f IH]; intros n acc Hn; rewrite ?digits_fuel_S, ?digits_fuel_O.
   - cbn in Hn. assert (n = 0) by lia. subst. lia.
   - destruct (N.eqb_spec n 0) as [->|Hn0]; [lia|].
     rewrite IH by (apply div_lt_pow2; assumption).
@@ -72,7 +78,7 @@ Lemma digits_fuel_shape r : 2 <= r -> forall fuel n acc, n < 2 ^ N.of_nat fuel -
   exists pre, digits_fuel fuel r n acc = pre ++ acc /\ Forall (fun d => d < r) pre /\
               (n = 0 -> pre = []) /\ (n <> 0 -> pre <> [] /\ nlz pre).
 Proof.
-  intros Hr. induction fuel as [|f IH]; intros n acc Hn; cbn [digits_fuel].
+  intros Hr. induction fuel as [|f IH]; intros n acc Hn; rewrite ?digits_fuel_S, ?digits_fuel_O.
   - cbn in Hn. exists []. repeat split; auto; lia.
   - destruct (N.eqb_spec n 0) as [->|Hn0].
     + exists []. repeat split; auto; congruence.
@@ -107,7 +113,7 @@ Proof.
     assert (Hpos : 0 < val r l * r + d).
     { destruct l as [|x l]; [cbn in *; destruct d; [contradiction|lia]|].
       pose proof (val_pos r (x :: l) ltac:(lia) Hnl ltac:(discriminate)). nia. }
-    destruct fuel as [|f]; [cbn in Hf; lia|]. cbn [digits_fuel].
+    destruct fuel as [|f]; [cbn in Hf; lia|]. rewrite digits_fuel_S.
     destruct (N.eqb_spec (val r l * r + d) 0); [lia|].
     replace ((val r l * r + d) / r) with (val r l) by (apply N.div_unique with d; lia).
     replace ((val r l * r + d) mod r) with d by (apply N.mod_unique with (val r l); lia).
